@@ -7,7 +7,11 @@ OPTS = [{'write_buffer': 65536, 'reuse_logs': 0}, {'write_buffer': 65536, 'reuse
         {'write_buffer': 262144, 'reuse_logs': 0, 'compression': 1, 'bloom': 10}, {'write_buffer': 65536, 'reuse_logs': 1}]
 
 def run(rep, tier, seed):
-    pr = vlib.coq_check('C02'); rep.add_proof(pr)
+    pr = vlib.coq_check('C02')
+    pr2 = vlib.coq_check('C02b')      # group commit: the selection rule of ldb_build_batch_group (Group.v)
+    pr['theorems'] += pr2['theorems']; pr['ok'] = pr['ok'] and pr2['ok']; pr['closed_count'] = pr.get('closed_count', 0) + pr2.get('closed_count', 0)
+    pr['axioms'] = sorted(set(pr['axioms']) | set(pr2['axioms'])); pr['log'] += pr2['log']; pr['file'] += ' + coq/theories/Properties_C02b.v'
+    rep.add_proof(pr)
     if not pr['ok']:
         rep.violation({'kind': 'proof-broken', 'log': pr['log'][-3000:], 'forbidden': pr['forbidden']}, suffix='no-failing-input-found')
     nh, nops, mp = (8, 30, 110) if tier == 'quick' else (96, 60, 100000)
@@ -17,7 +21,7 @@ def run(rep, tier, seed):
     rep.cov['rule'] = ('write histories with mixed sync/non-sync batches, flushes, compactions, reopen; at every (sampled in quick) syscall '
                        'boundary three images allowed by the crash model are materialised (minimal: every file cut to its last-fsync length and '
                        'directory operations only up to the last fsync; directory-ops-ahead-of-data; torn tail) and the real ldb_open + scan must '
-                       'contain every sync-acknowledged batch and every batch whose log was deleted; plus multi-threaded runs of the pthread build with mixed sync flags under schedule perturbation: every group commit that contains a sync=1 writer must be followed by an fsync of the log before the next group is built; distinct_nontrivial = distinct images recovered')
+                       'contain every sync-acknowledged batch and every batch whose log was deleted; plus multi-threaded runs of the pthread build with mixed sync flags under schedule perturbation: every group commit that contains a sync=1 writer must be followed by an fsync of the log before the next group is built, and the members of every group (queue as the leader saw it: sizes, sync flags, flush requests) must be the ones the extracted model of ldb_build_batch_group selects; distinct_nontrivial = distinct images recovered')
     rep.assumptions.append('crash model is the one stated in the property (prefix of written bytes >= last fsync, directory operations in issue order >= last fsync)')
 
 def replay(rep, path):
